@@ -1,5 +1,5 @@
 """C01 — bounded pipeline contracts (schema catalogue)."""
-from vlib import lgen, schemas
+from vlib import lgen, schemas, monrun
 
 META = {
   'level': 'other',
@@ -13,8 +13,13 @@ META = {
 
 
 def run(tier, seed):
-  return [schemas.run_schemas(lgen.by_tag('C01'), tier, seed, 'C01-schemas')]
+  return [schemas.run_schemas(lgen.by_tag('C01'), tier, seed, 'C01-schemas'),
+          monrun.run_monitors('C01', tier, seed)]
 
 
 def replay(spec):
+  if spec.get('kind') == 'monitor':
+    r = monrun.run_monitors('C01', 'quick', 0)
+    print('             ', [v['replay']['clause'] for v in r['violations']] or 'holds')
+    return not r['violations']
   return schemas.replay_schema(spec, lgen.by_tag('C01'))
